@@ -202,6 +202,16 @@ func solve(w *World, o *Obl, tier string, keepQuery bool) *Result {
 		r.Output = o.Label
 		return r
 	}
+	if o.Static != "" {
+		r.Solver = "dataflow"
+		if o.Static == "ok" {
+			r.Status = "discharged"
+		} else {
+			r.Status = "refuted"
+			r.Output = o.Static
+		}
+		return r
+	}
 	// first try the cone-of-influence slice (an unsat answer for it is final); fall back to the full query
 	if o.enc != nil && o.Kind != "cover" && !o.Short && os.Getenv("GOVC_NOSLICE") == "" {
 		sq, sRec := o.queryOpt(w, true)
